@@ -218,3 +218,9 @@ Definition vx_trace (k : nat) : option Z :=
 Definition vx_norm : option Z :=
   option_map (fun g => gvalue Z 0%Z 1%Z Z.add Z.mul (pair_wires vx_s (conj_store 1000 100 vx_s)) (pair_dim vx_s (conj_store 1000 100 vx_s)) vx_tblS g (fun _ => 0))
              (scalar_product 1000 100 vx_s None).
+
+(* ==== single-site operator on node c (TTNDO/ValueTP.v): the world of C04's tp_expectation with one factor ============ *)
+Definition tp1_wiresS (woff aoff : nat) (s : store) (c : id) : nat -> list wire :=
+  ext_wires (pair_wires s (conj_store woff aoff s)) (next_atom s) [next_wire s; open_wire s c].
+Definition tp1_dimS (woff aoff : nat) (s : store) (c : id) : wire -> nat :=
+  ext_dim (pair_dim s (conj_store woff aoff s)) [next_wire s] (wdim s (open_wire s c)).
